@@ -19,9 +19,10 @@ pub mod replay;
 #[cfg(verif_replay)]
 pub mod selftest;
 
+pub mod c06;
 pub mod c07;
 
 /// name -> native replay entry of every harness
 pub fn table() -> impl Iterator<Item = &'static (&'static str, fn())> {
-    c07::TABLE.iter()
+    c06::TABLE.iter().chain(c07::TABLE.iter())
 }
